@@ -61,7 +61,21 @@ fn strat(bits: usize) -> BoxedStrategy<Case> {
         Case::new().l(mask_vec(v, bits)).l(d).n(3)
     });
     let zero_div = uint(bits).prop_map(move |a| Case::new().l(a).l(vec![0; n]).n(4));
-    prop_oneof![4 => indep, 4 => sized, 4 => constructed, 4 => copy_top, 1 => zero_div].boxed()
+    // n = d + {-1, 0, 1} and n = the largest multiple of d that fits (+ {-1, 0, 1})
+    let near = (sized_value(n, bits), 0u8..6).prop_map(move |(d, k)| {
+        let two = pow2(bits);
+        let db = big(&d);
+        let nn = match k {
+            0 => db.clone(),
+            1 => (&db + 1u32) % &two,
+            2 => &db - 1u32,
+            3 => (&two - 1u32) / &db * &db,
+            4 => ((&two - 1u32) / &db * &db + 1u32) % &two,
+            _ => (&two - 1u32) / &db * &db - 1u32,
+        };
+        Case::new().l(limbs_of(&nn, n)).l(d).n(5)
+    });
+    prop_oneof![4 => indep, 4 => sized, 4 => constructed, 4 => copy_top, 2 => near, 1 => zero_div].boxed()
 }
 
 fn body<const B: usize, const L: usize>(c: &Case, rec: &mut Rec) -> R {
@@ -101,7 +115,7 @@ fn body<const B: usize, const L: usize>(c: &Case, rec: &mut Rec) -> R {
     rec.class_if(nl == dl, "nlen==dlen");
     rec.class_if(nl < dl, "nlen<dlen");
     rec.class_if(c.l[1][dl - 1] >> 63 == 1, "divisor_normalised");
-    rec.class(match c.n.first() { Some(0) => "gen:independent", Some(1) => "gen:sized", Some(2) => "gen:constructed", Some(3) => "gen:copy_top", Some(4) => "gen:zero", _ => "gen:enum" });
+    rec.class(match c.n.first() { Some(0) => "gen:independent", Some(1) => "gen:sized", Some(2) => "gen:constructed", Some(3) => "gen:copy_top", Some(4) => "gen:zero", Some(5) => "gen:near_or_largest_multiple", _ => "gen:enum" });
     let nontrivial = !qe.is_zero() && db.count_ones() != 1;
     if nontrivial {
         rec.nontrivial(&(&c.l[0], &c.l[1]));
@@ -152,7 +166,7 @@ fn body<const B: usize, const L: usize>(c: &Case, rec: &mut Rec) -> R {
 fn main() {
     let spec = PropSpec {
         id: "C03",
-        rule_text: "cases (n,d) per width from 5 generator classes (independent alphabet values; divisors of every limb length with 0..63 leading zero bits; n=q*d+r built from extreme q,d,r; numerators copying the divisor's top limbs with perturbed lower limbs; d=0) plus exhaustive enumeration of all pairs for BITS<=8. Oracle: num-bigint quotient/remainder. Non-trivial: d!=0, quotient!=0 and d not a power of two; distinct by (rule,width,n,d).",
+        rule_text: "cases (n,d) per width from 6 generator classes (n = d + {-1,0,1} and the largest multiple of d that fits + {-1,0,1}; independent alphabet values; divisors of every limb length with 0..63 leading zero bits; n=q*d+r built from extreme q,d,r; numerators copying the divisor's top limbs with perturbed lower limbs; d=0) plus exhaustive enumeration of all pairs for BITS<=8. Oracle: num-bigint quotient/remainder. Non-trivial: d!=0, quotient!=0 and d not a power of two; distinct by (rule,width,n,d).",
         assumptions: vec![
             "num-bigint division is correct (oracle)",
             "x86-64 little-endian target only",
@@ -164,7 +178,7 @@ fn main() {
         spec,
         |jobs, _| {
             reg_enum!(jobs, "div_all_pairs", enum_pairs, body; [0, 1, 2, 3, 4, 5, 6, 7, 8]);
-            w_all_wide!(reg_gen!(jobs, "div", 10000, strat, body;));
+            w_all_wide!(reg_gen!(jobs, "div", 25000, strat, body;));
         },
         |_| Map::new(),
     );
